@@ -369,13 +369,14 @@ pub fn base_spec(shape: usize, packaging: Packaging, comp: Comp, seed: u32) -> C
                     windows: vec![Win::Whole, Win::Interior(20000, 40000)],
                 }],
                 linked: true,
+                index_meta: false,
             },
         },
         _ => ContainerSpec {
             packaging,
             comp,
             contents: vec![c(120, Entropy::Text, Hint::Yes, 5), c(33, Entropy::High, Hint::No, 6), c(0, Entropy::Zero, Hint::No, 7)],
-            extra_packs: vec![ExtraPack { comp, contents: vec![c(64, Entropy::Low, Hint::Yes, 8), c(5, Entropy::Text, Hint::No, 9)], id_class: 0 }],
+            extra_packs: vec![ExtraPack { comp, contents: vec![c(64, Entropy::Low, Hint::Yes, 8), c(5, Entropy::Text, Hint::No, 9)], id_class: 0, place: 0 }],
             dedup: false,
             dir: DirSpec {
                 vstores: vec![StoreKind::Indexed],
@@ -392,6 +393,7 @@ pub fn base_spec(shape: usize, packaging: Packaging, comp: Comp, seed: u32) -> C
                     windows: vec![Win::Whole],
                 }],
                 linked: true,
+                index_meta: true,
             },
         },
     }
